@@ -25,7 +25,7 @@ func init() {
 		}
 		seen[s] = k
 	}
-	c06Pool = []string{p1, p2, "{t}a", "{t}b", "", "a\r\nb", "\x00\xff", "k{t}", "{}t"}
+	c06Pool = []string{p1, p2, "{t}a", "{t}b", "", "a\r\nb", "\x00\xff", "k{t}", "{}t", "e\r\n"}
 }
 
 type c06req struct {
@@ -185,7 +185,7 @@ func c06Scenarios(tier string) []*world.Scenario {
 	if tier == "thorough" {
 		maxLen = 5
 	}
-	vals := []string{"v", "", "x\r\ny"}
+	vals := []string{"v", "", "x\r\ny", "w\r\n", "\n"}
 	var all []c06req
 	var rec func(cur []int)
 	rec = func(cur []int) {
@@ -200,9 +200,9 @@ func c06Scenarios(tier string) []*world.Scenario {
 				for j, k := range keys {
 					args = append(args, k)
 					if kind == "mset" {
-						v := vals[(j+len(cur)+cur[0])%3] + fmt.Sprint(j)
+						v := fmt.Sprint(j) + vals[(j+len(cur)+cur[0])%5]
 						if (j+cur[0])%4 == 0 {
-							v = vals[(j+1)%3]
+							v = vals[(j+1)%5]
 						}
 						r.vals = append(r.vals, v)
 						args = append(args, v)
@@ -437,7 +437,7 @@ func c08Scenarios(tier string) []*world.Scenario {
 
 func init() {
 	register(&Check{ID: "C06", Level: "model_checking",
-		Rule:      "every MGET / DEL key list and MSET pair list of length 1..4 (thorough 1..5) with repetition over a pool of 9 keys chosen for slot structure (two brace-free keys sharing a slot, two sharing a slot through a hash tag, a third key of that tag's slot, empty key, key with CRLF, binary key, key with an empty '{}' tag), values {plain, empty, CRLF-bearing}; each list is sent through the real proxy (closed-loop batches of 60) and the fragments every node received are compared with the reference split: one well-formed fragment of the same command per distinct specification slot, only keys of that slot, every key occurrence (with its value) exactly once and in request order; non-trivial = every list (each list is distinct); distinct = observable outcomes of the batches",
+		Rule:      "every MGET / DEL key list and MSET pair list of length 1..4 (thorough 1..5) with repetition over a pool of 10 keys chosen for slot structure (two brace-free keys sharing a slot, two sharing a slot through a hash tag, a third key of that tag's slot, empty key, key with CRLF inside, key ENDING in CRLF, binary key, key with an empty '{}' tag), values {plain, empty, CRLF inside, ending in CRLF, a lone LF}; each list is sent through the real proxy (closed-loop batches of 60) and the fragments every node received are compared with the reference split: one well-formed fragment of the same command per distinct specification slot, only keys of that slot, every key occurrence (with its value) exactly once and in request order; non-trivial = every list (each list is distinct); distinct = observable outcomes of the batches",
 		Scenarios: c06Scenarios, BudgetQuick: 100, BudgetThorough: 1500,
 		Assumptions: []string{"pool keys are brace-free or carry well-formed hash tags (slot function itself is C05's business)"}})
 	register(&Check{ID: "C08", Level: "model_checking",
